@@ -410,7 +410,20 @@ def r6_layout_table(ctx):
         return bytes([0x48]) * n
       it = absint.Interp(ctx.repo, ctx.ev, hooks={'flatbuffer_utils.convert_object_to_bytearray': serialise})
       bufs = [Obj('x:BufferT', {'data': d, 'offset': 0, 'size': 0}) for d in cfg]
-      model = Obj('x:ModelT', {'buffers': bufs})
+      # The buffers play every role a buffer can have in a model: read by an operator, belonging to a constant that is only
+      # a graph output, referenced by a metadata entry, referenced by nothing at all. The ordinary path embeds them all.
+      tensors, consumed, out_only, meta = [Obj('x:TensorT', {'name': b'x', 'buffer': 0, 'shape': [1], 'type': 0})], [], [], []
+      for k in range(1, len(cfg)):
+        role = k % 4
+        if role in (0, 1):
+          tensors.append(Obj('x:TensorT', {'name': f'c{k}'.encode(), 'buffer': k, 'shape': [1], 'type': 0}))
+          (consumed if role == 0 else out_only).append(len(tensors) - 1)
+        elif role == 3:
+          meta.append(Obj('x:MetadataT', {'name': f'm{k}', 'buffer': k}))
+      tensors.append(Obj('x:TensorT', {'name': b'y', 'buffer': 0, 'shape': [1], 'type': 0}))
+      op = Obj('x:OperatorT', {'opcodeIndex': 0, 'inputs': [0] + consumed, 'outputs': [len(tensors) - 1]})
+      sg = Obj('x:SubGraphT', {'tensors': tensors, 'operators': [op], 'inputs': [0], 'outputs': [len(tensors) - 1] + out_only, 'name': b'main'})
+      model = Obj('x:ModelT', {'buffers': bufs, 'subgraphs': [sg], 'metadata': meta or None, 'operatorCodes': [Obj('x:OperatorCodeT', {'builtinCode': 0})], 'signatureDefs': None})
       selfo = Obj(MM, {'_constant_map': []})
       label = f'header {header}, buffers {[None if d is None else len(d) for d in cfg]}'
       o1 = it.outcomes(pc, [selfo, model], copy_args=False)
@@ -418,7 +431,9 @@ def r6_layout_table(ctx):
         ctx.check(R, False, pc.node, pc, label, f'constant map not decided: {[o.short() for o in o1]}')
         continue
       total = o1[0].value
-      ctx.check(R, total == sum(len(d) for d in cfg if d is not None), pc.node, pc, f'{label}: total {total}', 'the constant size that selects the large-model path must be the sum of all constant sizes')
+      cmap = selfo.fields['_constant_map']
+      recorded = sum(len(x) for x in cmap if isinstance(x, (bytes, bytearray))) if isinstance(cmap, list) else None
+      ctx.check(R, total == recorded, pc.node, pc, f'{label}: total {total}, constant map holds {recorded} bytes', 'the size that selects the large-model path must be the size of the constants recorded in the constant map (the data that leaves the table)')
       o2 = it.outcomes(sl, [selfo, model], copy_args=False)
       if len(o2) != 1 or o2[0].kind != 'return' or not isinstance(o2[0].value, (bytes, bytearray)) or not snaps:
         ctx.check(R, False, sl.node, sl, label, f'layout not decided: {[o.short()[:80] for o in o2]}')
